@@ -173,6 +173,10 @@ OnCallEnd(m, e, idx) ==
         b1 == IF verdict = "" THEN m.bad
               ELSE IF verdict = "WrongRequest"
                    THEN Flag(Flag(m.bad, p, p \o "_OwnOutcome", idx), "C11", "C11_WrongRequest", idx)
+              \* (answered although the request was never handed to the batch function: whatever it got, it is not the
+              \*  outcome of this request's own computation - e.g. something retained from elsewhere)
+              ELSE IF verdict = "AnsweredWithoutBatch"
+                   THEN Flag(Flag(m.bad, p, p \o "_AnsweredWithoutBatch", idx), "C11", "C11_WrongRequest", idx)
               ELSE Flag(m.bad, p, p \o "_" \o verdict, idx)
     IN [m EXCEPT !.bad = b1, !.pendc = @ \ {e.i},
                  !.reqs = IF e.kind \notin {"cancel", "timeout"} THEN [@ EXCEPT ![c.req].answered = TRUE] ELSE @]
@@ -194,9 +198,12 @@ MStep(m, e, idx) ==
     [] e.e = "BatchEnd" -> OnBatchEnd(m, e, idx)
     [] e.e = "CallEnd" -> OnCallEnd(m, e, idx)
     [] e.e = "Quiescent" ->
+        \* long after the last call: a request that still has not been handed to the batch function never will be
+        \* (C10: "no later than batch_timeout after ...")
+        LET b1 == IF m.fifo # <<>> /\ ~m.fuzzy THEN Flag(m.bad, "C10", "C10_Deadline", idx) ELSE m.bad IN
         IF \E i \in m.pendc : ~m.call[i].cancelled
-        THEN [m EXCEPT !.bad = Flag(@, P(m), P(m) \o "_Answered", idx)]
-        ELSE m
+        THEN [m EXCEPT !.bad = Flag(b1, P(m), P(m) \o "_Answered", idx)]
+        ELSE [m EXCEPT !.bad = b1]
     [] e.e = "End" ->
         IF e.status # "ok" THEN [m EXCEPT !.bad = Flag(@, P(m), P(m) \o "_Answered", idx)] ELSE m
     [] OTHER -> m
